@@ -511,10 +511,15 @@ impl CodegenContext {
                 }
             }
             None => {
-                /*log::trace!(
-                    "Not emitting, since there is no current segment: {:?}",
-                    &bytes
-                );*/
+                // Without any segment (the very first pass of a program that relies on the default segment)
+                // nothing can be emitted yet. But when the program defines its own segments, code in front of the first
+                // definition has no segment to go to in any pass: say so instead of silently dropping it.
+                if !self.segments.is_empty() && !bytes.is_empty() {
+                    return Err(Diagnostic::error()
+                        .with_message("no segment is active here: define a segment before emitting code")
+                        .with_labels(vec![span.to_label()])
+                        .into());
+                }
                 Ok(())
             }
         }
